@@ -235,16 +235,77 @@ def check_entry(entry, degrees=None):
     return out
 
 
-def export_entry(entry):
-    """(cfg, pieces) for GaussTable, or a reason why not"""
-    cfg = entry['cfg']
+# ---------------------------------------------------------------------------
+# T binding: the configurations of a GaussOracle cfg, enumerated like the spec does (the harness checks afterwards that TLC
+# visited exactly these), and the decomposition of the real reference of each
+
+MC = dict(MCRefs1=[(1,), (2,), (1, 1)],
+          MCRefs2=[(1,), (2,), (3,), (1, 1), (1, 2), (2, 1), (1, 1, 1)],
+          MCTrim2=[(1,), (2,), (1, 1)],
+          MCTrim3=[(1,), (2,), (1, 1), (3,), (1, 2), (1, 1, 1)],
+          MCLevels1=[1], MCLevels2=[1, 2], MCRefine0=[0], MCRefine01=[0, 1])
+
+
+def cfg_constants(text):
+    out = {}
+    for line in text.splitlines():
+        parts = line.split()
+        if len(parts) == 3 and parts[1] == '<-':
+            out[parts[0]] = MC[parts[2]]
+    return out
+
+
+def child_sets(d):
+    nc = 2 ** sum(d)
+    if nc <= 4:
+        return [[k for k in range(nc) if m >> k & 1] for m in range(1, 2 ** nc - 1)]
+    sets = [{0}, {nc - 1}, set(range(nc - 1)), {k for k in range(nc) if k % 2 == 0}, {k for k in range(nc) if k >= nc // 2}, {1, nc - 2}]
+    return [sorted(s) for s in {frozenset(s) for s in sets}]
+
+
+def trim_args(d, levels, refines):
+    n = sum(d)
+    starts = {}
+    at = 1
+    for k in d:
+        starts[at] = k
+        at += k
+    out = set()
+    for L in levels:
+        for mr in refines:
+            for keep in (0, 1):
+                for o in range(1, 8):
+                    for c in range(1, n + 1):
+                        if o <= 3:
+                            out.add((0, c, keep, o, L, mr))
+                            if starts.get(c, 0) >= 2:
+                                out.add((1, c, keep, o, L, mr))
+                    if tuple(d) == (1, 1):
+                        out.add((2, 1, keep, o, L, mr))
+    return sorted(a for a in out if a[3] < (2 if a[0] == 2 else 1) * 2 ** a[4] and (a[3] % 2 == 1 or a[4] == 1))
+
+
+def enumerate_cfgs(consts):
+    cfgs = []
+    for d in consts['RefTypes']:
+        cfgs.append(dict(d=list(d), op='ref', a=[]))
+        for s in child_sets(d):
+            cfgs.append(dict(d=list(d), op='children', a=list(s)))
+        if d in consts['TrimRefs']:
+            for a in trim_args(d, consts['TrimLevels'], consts['MaxRefine']):
+                cfgs.append(dict(d=list(d), op='trim', a=list(a)))
+    return cfgs
+
+
+def export_row(cfg):
+    """[cfg, pieces, skip, kind] for the table: the decomposition of the real reference, or why there is none"""
     try:
         ref = make_ref(cfg)
     except Exception as e:
-        return None, 'construction raised {}'.format(type(e).__name__)
+        return dict(cfg=cfg, pieces=[], skip='construction raised {}'.format(type(e).__name__), kind='')
     pieces = export_pieces(cfg, ref)
     if pieces is None:
-        return None, 'decomposition is not dyadic'
+        return dict(cfg=cfg, pieces=[], skip='decomposition is not dyadic', kind=type(ref).__name__)
     if not pieces:
-        return None, 'reference is empty'
-    return dict(cfg=cfg, pieces=pieces, kind=type(ref).__name__), None
+        return dict(cfg=cfg, pieces=[], skip='reference is empty', kind=type(ref).__name__)
+    return dict(cfg=cfg, pieces=pieces, skip='', kind=type(ref).__name__)
